@@ -16,6 +16,7 @@ BASE_OUT = ("NODE host=node.local;realm=realm.local;idle=5;dwa=3;cer=3;cea=3;rq=
             "peer:peer1.x,realm.local,0,0,30,1,1,-,-,-,-;peer:peer2.x,realm.local,1,1,2,1,0,-,-,-,-;app:4,1,0,b,0,0+1,-")
 BASE_IN = BASE_OUT.replace("peer:peer2.x,realm.local,1,1,2,1,0", "peer:peer2.x,realm.local,0,0,2,1,0")
 OUT_KINDS = ("dial_refused", "dial_async_fail", "dial_rejected", "dial_established")
+BASE_NOADDR = BASE_OUT.replace("peer:peer2.x,realm.local,1,1,2,1,0", "peer:peer2.x,realm.local,1,1,2,0,0")   # persistent, no address
 BASE_T = BASE_IN.replace("app:4,1,0,b,0,0+1,-", "app:4,1,0,t,0,0+1,-")          # the same with a threading application
 T_KINDS = ("thread_req", "thread_req_raise")      # (a request whose handler returns no answer is not a completed transaction)
 
@@ -173,6 +174,27 @@ def kinds():
                     f"ans 0 {i} 2001", f"eof {i + 1}"]
         return evs + ["eof 0", "tick"]
 
+    def stop_forced(N):
+        # N established connections, then a forced stop: everything ends with it
+        evs = ["start fail"]
+        for i in range(N):
+            evs += ["acc", f"rx {i} " + nodegen.cer("peer1.x" if i % 2 == 0 else "peer2.x", "4", n(), n())]
+        return evs + ["stop 1 1"]
+
+    def stop_unanswered(N):
+        # N established connections, a graceful stop whose DPRs nobody answers: closed at the wait timeout
+        evs = ["start fail"]
+        for i in range(N):
+            evs += ["acc", f"rx {i} " + nodegen.cer("peer1.x" if i % 2 == 0 else "peer2.x", "4", n(), n())]
+        return evs + ["stop 0 2"]
+
+    def dial_no_address(N):
+        # a persistent peer without addresses that had connected by itself and is gone: N reconnect passes find nothing to dial
+        evs = ["start fail", "acc", "rx 0 " + nodegen.cer("peer2.x", "4", n(), n()), "eof 0", "tick"]
+        for i in range(N):
+            evs += ["adv 3"]
+        return evs + ["tick"]
+
     def dial_refused(N):
         evs = ["start fail"]
         for i in range(N):
@@ -201,7 +223,8 @@ def kinds():
             "rejected_req": rejected_req, "dup_reject": dup_reject, "dwr_in": dwr_in, "dwr_in_sparse": dwr_in_sparse, "dwr_out": dwr_out,
             "outbound_req": outbound_req, "outbound_req_timeout": outbound_req_timeout, "conn_ok": conn_ok, "inbound_req_raise": inbound_req_raise, "thread_req": thread_req,
             "thread_req_raise": thread_req_raise, "conn_req_answered": conn_req_answered, "conn_node_closes": conn_node_closes, "conn_unknown": conn_unknown,
-            "conn_timeout": conn_timeout, "conn_already": conn_already, "second_conn_req": second_conn_req, "dial_refused": dial_refused,
+            "conn_timeout": conn_timeout, "conn_already": conn_already, "second_conn_req": second_conn_req,
+            "stop_forced": stop_forced, "stop_unanswered": stop_unanswered, "dial_no_address": dial_no_address, "dial_refused": dial_refused,
             "dial_async_fail": dial_async_fail, "dial_rejected": dial_rejected, "dial_established": dial_established}
 
 
@@ -223,7 +246,7 @@ def final(lines: list[str]):
 
 
 def run(res: Result, tier: str, seed: int):
-    res.rule = ("19 kinds of completed transaction / connection attempt, each repeated N times (N = 1, 10 quick; 1, 10, 100 thorough; "
+    res.rule = ("22 kinds of completed transaction / connection attempt, each repeated N times (N = 1, 10 quick; 1, 10, 100 thorough; "
                 "a 1000-run for inbound requests in thorough) on one node, ending with every request answered and every "
                 "connection ended; oracle: every table size, the open-socket count and the live-worker count at the end are the "
                 "same for every N (apart from the fixed-size retransmission window; the peers' statistics windows stay within their documented bounds: deque bound, maximum age of the time slots); real vs model on SIZE/RES")
@@ -233,7 +256,7 @@ def run(res: Result, tier: str, seed: int):
     scen = []
     for name, fn in ks.items():
         for N in Ns + ([1000] if (tier != "quick" and name == "inbound_req") else []):
-            scen.append((name, N, (BASE_OUT if name in OUT_KINDS else BASE_T if name in T_KINDS else BASE_IN) + " | " + " | ".join(fn(N))))
+            scen.append((name, N, (BASE_OUT if name in OUT_KINDS else BASE_T if name in T_KINDS else BASE_NOADDR if name == "dial_no_address" else BASE_IN) + " | " + " | ".join(fn(N))))
     lines = [s for _, _, s in scen]
     reals = [run_real(l, budget=300) for l in lines]
     models = [m.split(" ## ") for m in run_driver(lines)]
